@@ -89,9 +89,9 @@ def gen(rng, tier):
                       "rel": rng.random() < 0.3})
     n_path = 0
     for _ in range(N):
-        target = rng.choice(["str", "str", "path", "bytesio", "tempfile"])
+        target = rng.choice(["str", "str", "path", "bytesio", "tempfile", "rawfile", "spooled"])
         ops = []
-        if target in ("bytesio", "tempfile"):
+        if target in ("bytesio", "tempfile", "rawfile", "spooled"):
             ops.append({"op": "write", "recipe": V.enc_recipe(sized_graph(rng, rng.choice(["big", "small", "meta", "mid"])))})
             ops += [{"op": rng.choice(["read", "read", "version"])} for _ in range(rng.randint(1, 5))]
         else:
@@ -141,6 +141,12 @@ def run(c):
         elif c["target"] == "bytesio":
             p = None
             tgt = fobj = io.BytesIO()
+        elif c["target"] == "rawfile":
+            p = None
+            tgt = fobj = open(os.path.join(tmpdir, "raw.bin"), "w+b", buffering=0)      # an UNBUFFERED file object (io.FileIO)
+        elif c["target"] == "spooled":
+            p = None
+            tgt = fobj = tempfile.SpooledTemporaryFile(max_size=10 ** 8, dir=tmpdir)
         else:
             p = None
             tgt = fobj = tempfile.TemporaryFile(dir=tmpdir)
